@@ -153,6 +153,14 @@ qb_loop_run(struct qb_loop *lp)
 	}
 	l->stop_requested = QB_FALSE;
 
+	/*
+	 * A previous run may have been stopped before everything queued
+	 * was dispatched: that is work to do now, do not sleep on it.
+	 */
+	for (p = QB_LOOP_HIGH; p >= QB_LOOP_LOW; p--) {
+		remaining_todo += l->level[p].todo;
+	}
+
 	do {
 		if (p_stop == QB_LOOP_LOW) {
 			p_stop = QB_LOOP_HIGH;
